@@ -8,6 +8,7 @@ Proofs: Daac/Proofs/SerialRT.lean.
 -/
 import Daac.Proofs.SerialRT
 import Daac.Proofs.WF2
+import Daac.Proofs.Intpack
 namespace Daac.Props.C09
 open Daac
 variable {V : Type}
@@ -100,5 +101,22 @@ theorem built_roundtrip (S : Ser V) (D : V → Prop) (variant : Variant) (cfg : 
     (hS : S.LawfulOn D) (rest : List Nat) :
     deserialize S da.variant (serialize S da ++ rest) = some (da, rest) :=
   roundtrip_of_build S D variant cfg P da hb hk hbytes hkind hvals hlen hcount htab hnodes hS rest
+
+/-! ### The packed word of the byte-wise `State` (src/intpack.rs `U24nU8`) -/
+
+/-- The third word of a serialised byte-wise state is the `U24nU8` holding (output position,
+CHECK) with the shift regenerated from the source; its accessors recover both fields, and the
+setters of the builder (`set_a` = `set_output_pos`, `set_b` = `set_check`) do not disturb each
+other. -/
+theorem bytewise_state_word (s : St) (hc : s.check < 256) :
+    serSt .bytewise s = serU32 s.base ++ serU32 s.fail ++ serU32 (U24nU8.pack s.opos s.check) ∧
+    U24nU8.a (U24nU8.pack s.opos s.check) = s.opos ∧
+    U24nU8.b (U24nU8.pack s.opos s.check) = s.check :=
+  ⟨rfl, U24nU8.a_pack _ _ hc, U24nU8.b_pack _ _ hc⟩
+
+theorem packed_setters (x a' b' : Nat) (hb : b' < 256) :
+    (U24nU8.a (U24nU8.setA x a') = a' ∧ U24nU8.b (U24nU8.setA x a') = U24nU8.b x) ∧
+    (U24nU8.b (U24nU8.setB x b') = b' ∧ U24nU8.a (U24nU8.setB x b') = U24nU8.a x) :=
+  ⟨U24nU8.setA_spec x a', U24nU8.setB_spec x b' hb⟩
 
 end Daac.Props.C09
